@@ -36,8 +36,49 @@ IGNORE_ARGS_OK = {
     ("DiagLinearOperator", "_cholesky"): "the only argument is `upper`; a diagonal factor is its own transpose",
     ("IdentityLinearOperator", "_cholesky"): "the only argument is `upper`; the identity is its own transpose",
 }
+# names of the memoize primitives: re-derived from utils/memoize.py on every run (derive_memo_api); the literals are only
+# the pinned tree's names, kept for readers of this file
 MEMO_WRITERS = {"add_to_cache", "_add_to_cache", "_add_to_cache_ignore_args"}
 MEMO_TESTS = {"_is_in_cache", "_is_in_cache_ignore_args", "_is_in_cache_ignore_all_args"}
+
+
+def derive_memo_api(idx: ProgramIndex):
+    """(writers, tests) of utils/memoize.py by what the functions DO: a writer stores into ``obj._memoize_cache[key]`` (or
+    is a one-line public wrapper returning a writer's result), a test returns a membership test on ``_memoize_cache``."""
+    m = idx.modules.get("linear_operator.utils.memoize")
+    writers, tests = set(), set()
+    if m is None:
+        return writers, tests
+    simple = {n: f for n, f in m.functions.items()
+              if not any(isinstance(x, (ast.FunctionDef, ast.Lambda)) and x is not f.node for x in ast.walk(f.node))}
+    # accessors: module functions that hand out the cache dictionary itself (def _ensure_cache(obj): ...; return obj._memoize_cache)
+    accessors = {n for n, f in simple.items() if any(isinstance(r, ast.Return) and isinstance(r.value, ast.Attribute)
+                                                     and r.value.attr == "_memoize_cache" for r in ast.walk(f.node))}
+
+    def is_cache(e: ast.AST) -> bool:
+        return (isinstance(e, ast.Attribute) and e.attr == "_memoize_cache") or (
+            isinstance(e, ast.Call) and isinstance(e.func, ast.Name) and e.func.id in accessors)
+
+    for name, fn in simple.items():
+        if name in accessors:
+            continue
+        stores = any(isinstance(n, ast.Assign) and any(isinstance(t, ast.Subscript) and is_cache(t.value) for t in n.targets)
+                     for n in ast.walk(fn.node))
+        member = any(isinstance(n, ast.Compare) and len(n.ops) == 1 and isinstance(n.ops[0], ast.In)
+                     and "_memoize_cache" in norm(n.comparators[0]) for n in ast.walk(fn.node))
+        if stores:
+            writers.add(name)
+        elif member:
+            tests.add(name)
+    for name, fn in simple.items():
+        body = [st for st in fn.body() if not (isinstance(st, ast.Expr) and isinstance(st.value, ast.Constant))]
+        if name not in writers and len(body) == 1 and isinstance(body[0], ast.Return) and isinstance(body[0].value, ast.Call) \
+                and isinstance(body[0].value.func, ast.Name) and body[0].value.func.id in writers:
+            writers.add(name)
+    # the pinned tree's names, where they still exist, remain part of the API whatever their bodies look like now
+    writers |= {n for n in ("add_to_cache", "_add_to_cache", "_add_to_cache_ignore_args") if n in m.functions}
+    tests |= {n for n in ("_is_in_cache", "_is_in_cache_ignore_args", "_is_in_cache_ignore_all_args") if n in m.functions}
+    return writers, tests
 
 
 def fname(fn: FunctionInfo) -> str:
@@ -225,6 +266,15 @@ def run(idx: ProgramIndex, rep: Report, tier: str, selftest: bool = True):
     rep.rule("C12.H", "a cache-hit shortcut returns what the miss path returns", floor=0)
     _KEY_SHAPES.clear()
     _KEY_SHAPES.update(derive_key_shapes(idx))
+    w_, t_ = derive_memo_api(idx)
+    if len(w_) < 3 or len(t_) < 3:
+        raise AnalysisError(f"memoize primitives not recognised by structure (writers {sorted(w_)}, tests {sorted(t_)})")
+    MEMO_WRITERS.clear()
+    MEMO_WRITERS.update(w_)
+    MEMO_TESTS.clear()
+    MEMO_TESTS.update(t_)
+    rep.analysed["memoize_writers"] = sorted(w_)
+    rep.analysed["memoize_tests"] = sorted(t_)
     rep.analysed["memoize_key_shapes"] = dict(_KEY_SHAPES)
     if len(_KEY_SHAPES) < 6:
         raise AnalysisError(f"could not derive the key shapes of the memoize primitives ({_KEY_SHAPES})")
